@@ -23,10 +23,10 @@ func init() {
 	register(&Rule{ID: "C17.guard", Floor: 2,
 		Text: "OSTypeFn.SetOSType, partially evaluated with BuildFeatures() folded to the constant of each build configuration: with avfs_setostype no path returns an error and every path stores the requested type; without it a type different from the host's is never stored and a refused request is reported",
 		Run:  c17Guard})
-	register(&Rule{ID: "C17.errors", Floor: 4,
+	register(&Rule{ID: "C17.errors", Floor: 4, Also: []string{"C01", "C04"},
 		Text: "Errors.SetOSType, evaluated for every OSType constant, assigns every field of avfs.Errors on every path; the Windows branch only WindowsError values (bar the documented TooManySymlinks), every other branch the LinuxError of the field's meaning",
 		Run:  c17Errors})
-	register(&Rule{ID: "C17.ctor", Floor: 3,
+	register(&Rule{ID: "C17.ctor", Floor: 3, Also: []string{"C01", "C02"},
 		Text: "the constructors of MemFS, OrefaFS and MemIdm select the error table from the object's own OSType() after SetOSType, and set the Windows defaults (volumes, modes, separator-dependent working directory) only under an OSType()==OsWindows test on the object",
 		Run:  c17Ctor})
 	register(&Rule{ID: "C17.hostfree", Floor: 150,
